@@ -581,13 +581,23 @@ class An:
                 return ('len', x)
             return ('un', rv['op'], x)
         if k == 'discriminant':
-            return ('discr', self.load_place(rv['place'], point))
+            v = self.load_place(rv['place'], point)
+            # `match r { Ok(..) => .., Err(..) => .. }` on a Result and `r?` decide on the same thing with the same numbering
+            # (Ok = Continue = 0, Err = Break = 1): one spelling
+            pl = rv['place']
+            if v[0] != 'try' and not [e for e in pl['p'] if e != 'deref'] and \
+                    self.body.local_ty(pl['l']).lstrip('&').replace('mut ', '').startswith('core::result::Result<'):
+                return ('discr', ('try', v))
+            return ('discr', v)
         if k == 'repeat':
             return ('repeat', self.val_op(rv['op'], point), rv['n'])
         if k == 'aggregate':
             fields = tuple(self.val_op(f, point) for f in rv['fields'])
             a = rv['agg']
             if a == 'adt':
+                if rv['adt'] == 'core::result::Result' and rv['variant'] == 'Err' and len(fields) == 1 and fields[0][0] == 'errval':
+                    # `Err(e) => return Err(e)` re-raises the failure like `?` does (identity conversion)
+                    return ('from_residual', mk_residual(fields[0][1]))
                 return ('agg', 'adt', rv['adt'] + '::' + rv['variant'], fields, tuple(rv['field_names']))
             if a == 'closure':
                 return ('closure', rv['closure'], fields)
@@ -867,6 +877,11 @@ def project1(v, e):
             return mk_okval(v[1])
         if v[0] == 'residual_variant':
             return mk_residual(v[1])
+        # `match r { Ok(v) => …, Err(e) => … }`: the payloads are the same values `?` would extract
+        if v[0] == 'variant' and name == '0' and v[1] == 'Ok':
+            return mk_okval(v[2])
+        if v[0] == 'variant' and name == '0' and v[1] == 'Err':
+            return ('errval', v[2])
         if v[0] == 'load':
             return ('load', v[1], v[2] + (e,))
         return ('field', name, v)
